@@ -82,6 +82,7 @@ type Options struct {
 
 // Exec is one execution of a harness body under the scheduler.
 type Exec struct {
+	holds             map[string]*hold // directed holds, see HoldAt
 	Opts              Options
 	prefix            []int
 	Points            []ChoicePoint
@@ -331,12 +332,41 @@ func Point(kind string, enabled func() bool) {
 	if x.aborting {
 		runtime.Goexit()
 	}
+	if h := x.holds[t.Name]; h != nil && h.kind == kind {
+		// a directed hold (HoldAt): this thread waits at this kind of point until the harness' condition holds
+		h.seen++
+		if h.seen == h.nth {
+			inner, cond := enabled, h.cond
+			enabled = func() bool { return cond() && (inner == nil || inner()) }
+			delete(x.holds, t.Name)
+		}
+	}
 	t.pend, t.kind = enabled, kind
 	if enabled != nil && !enabled() {
 		x.Blocks++
 	}
 	x.schedule(t)
 	t.pend = nil
+}
+
+type hold struct {
+	kind      string
+	nth, seen int
+	cond      func() bool
+}
+
+// HoldAt makes the named thread wait at its nth scheduling point of the given kind (1-based) until cond holds.
+// It lets a harness place one thread inside a window of the code under test (between two synchronisation
+// operations) without spending the exploration budget on it; everything else stays explored. The hold is part of the
+// program, not of the schedule: it is the same in every execution and on replay.
+func HoldAt(thread, kind string, nth int, cond func() bool) {
+	if X == nil {
+		return
+	}
+	if X.holds == nil {
+		X.holds = map[string]*hold{}
+	}
+	X.holds[thread] = &hold{kind: kind, nth: nth, cond: cond}
 }
 
 // Yield marks the running thread as politely waiting (spin loop, Gosched):
